@@ -15,7 +15,7 @@ def riemann(c):
     cls = IGEOS_Solver if c['class'] == 'IGEOS_Solver' else GenEOS_Solver
     P = c['params']
     s = cls(**P)
-    x = np.linspace(P['xmin'] + 1e-3, P['xmax'] - 1e-3, 1201)
+    x = np.linspace(-1.3, 1.7, 1501)          # fine enough that a fan changes by well under 2 % per cell
     sol = s(x, c['t'])
     p, r, e, u = (np.asarray(sol[k], float) for k in ('pressure', 'density', 'specific_internal_energy', 'velocity'))
     xs = np.asarray(sol['position'], float)
